@@ -60,6 +60,8 @@ type Config struct {
 	MaxSteps    int   // step horizon (default 400000)
 	IdleHorizon int64 // virtual ns without Progress() while a root is running => stall (0 = off)
 	TimerFirst  bool  // offer "fire earliest timer now" as a cost-1 alternative at scheduling points
+	// TimerTies makes the firing order of timers due at the same instant a choice.
+	TimerTies bool
 	// AtomicPoints makes sync/atomic operations scheduling points.
 	AtomicPoints bool
 	// LockPoints makes mutex acquisitions scheduling points (default true via DefaultConfig).
@@ -469,6 +471,24 @@ func (x *Exec) fireTimer() bool {
 	}
 	if best == nil {
 		return false
+	}
+	if x.cfg.TimerTies {
+		// timers due at the same instant may fire in any order: creation order is the default,
+		// every other one a deviation
+		var ties []*timer
+		for _, tm := range x.timers {
+			if !tm.dead && tm.at == best.at {
+				ties = append(ties, tm)
+			}
+		}
+		if len(ties) > 1 {
+			sort.Slice(ties, func(i, j int) bool { return ties[i].seq < ties[j].seq })
+			costs := make([]int, len(ties))
+			for i := 1; i < len(ties); i++ {
+				costs[i] = 1
+			}
+			best = ties[x.choose(costs, "timer-tie")]
+		}
 	}
 	best.dead = true
 	if best.at > x.clock {
